@@ -103,4 +103,27 @@ theorem foreign_partition_is_error (w : World) (s : Nat) (d : Drr) (dk : DrrKey)
     (applyOp w (.decrypt s d fl)).1 = .error .wrongPartition := by
   rw [(applyOp_decrypt w s d fl).1, decrypt_foreign h hp hk]
 
+/-! ### non-vacuity -/
+
+def demoPolicy : Policy :=
+  { expireAfter := 1000000000, revokeInterval := 1000000000000, precision := 0,
+    cacheSK := true, cacheIK := true, sharedIK := false }
+
+def demoHistory : List Op := [.newFactory demoPolicy 0 0 0 0, .getSession 0 7 0 0, .encrypt 0 42 []]
+def demoWorld : World := (runOps (World.init 5000000000) demoHistory).2
+def demoRecord : Drr := ⟨some ⟨5, .enc 1 2 (.key 2), some ⟨.ik 7, 5⟩⟩, .enc 2 1 (.payload 42)⟩
+
+/-- the hypothesis of `decrypt_authentic` is satisfiable: the genuine record decrypts. -/
+example : (applyOp demoWorld (.decrypt 0 demoRecord [])).1 = .payload 42 := by decide
+
+/-- a flipped / truncated data field, a flipped key field, a splice with another record's data, a
+record of another partition, and a corrupted stored row are all errors (no panic, no other bytes). -/
+example : (applyOp demoWorld (.decrypt 0 { demoRecord with data := .junk 1 } [])).1 = .error .aead := by decide
+example : (applyOp demoWorld (.decrypt 0 ⟨some ⟨5, .junk 3, some ⟨.ik 7, 5⟩⟩, demoRecord.data⟩ [])).1 = .error .aead := by decide
+example : (applyOp demoWorld (.decrypt 0 { demoRecord with data := .enc 9 1 (.payload 42) } [])).1 = .error .aead := by decide
+example : (applyOp demoWorld (.decrypt 0 ⟨some ⟨5, .enc 1 2 (.key 2), some ⟨.ik 8, 5⟩⟩, demoRecord.data⟩ [])).1 =
+    .error .wrongPartition := by decide
+example : (applyOp (applyOp (applyOp demoWorld (.closeFactory 0)).2 (.corruptRow ⟨.ik 7, 5⟩ true)).2
+    (.decrypt 0 demoRecord [])).1 ≠ .payload 42 := by decide
+
 end AsherahVerif.Props.C07
